@@ -111,6 +111,8 @@ def evaluate(part, src, run_kw, sa_kw, labels, fmt="vtl", extra=None):
             m = re.search(r"non-nullable \w+ (\w+) is null", what)
             if m and re.search(r"calc\s+(?:\w+\s+)?%s\s*:=\s*if\b" % re.escape(m.group(1)), run_kw["script"]):
                 key = "null_in_non_nullable:calc_if_then_else"   # the component is computed by an if-then-else (null condition)
+        if key in ("column_set", "column_order") and re.search(r"\[\s*unpivot\b", run_kw["script"]):
+            key += ":unpivot"
         part.fail(key, dict(source=src, script=run_kw["script"], format=fmt, **(extra or {})), what)
 
 
